@@ -972,7 +972,13 @@ class LangServer:
             rf"(?<![\w$])({re.escape(def_name)})(?![\w$])", re.I
         )
         if file_obj is None:
-            file_set = self.workspace.items()
+            # Search the file of the definition first: what is matched there (e.g. the
+            # binding of a type-bound procedure) decides what matches elsewhere, and
+            # the result must not depend on the order of the files in the workspace
+            def_path = def_obj.file_ast.path
+            file_set = sorted(
+                self.workspace.items(), key=lambda item: item[0] != def_path
+            )
         else:
             file_set = ((file_obj.path, file_obj),)
         # A container that includes all the FQSN signatures for objects that
